@@ -37,6 +37,119 @@ def run(ctx):
     _legacy_hashable(ctx, model)
     _evaluate_rational(ctx, model)
     _fft_wrappers(ctx, model)
+    _truthiness(ctx, model)
+    _sort_uniq(ctx, model)
+    _exact_unit_division(ctx, model)
+
+
+def _truthiness(ctx, model):
+    """`while r:` in extended_euclidean and `if not newcoeff` in the polynomial
+    code rely on the truth value of ring elements being 'is non-zero'.  Python 3
+    consults __bool__ (then __len__); a class that only defines the Python 2
+    name __nonzero__ is always true, so the Euclidean loop never sees a zero
+    remainder."""
+    n = 0
+    for c in model.classes.values():
+        if not c.module.name.startswith("pymbolic"):
+            continue
+        own = c.members
+        if "__nonzero__" in own:
+            n += 1
+            ok = "__bool__" in own or any(
+                "__bool__" in b.members for b in model.mro(c)[1:]
+                if not isinstance(b, str))
+            ctx.ob(f"S/truthiness/{c.name}", ok, c.loc(),
+                   "__bool__ is defined along with __nonzero__" if ok else
+                   f"{c.name} defines __nonzero__ but not __bool__: under Python 3 "
+                   "every instance is true, so 'while r:' in extended_euclidean "
+                   "never terminates normally on a zero remainder (it ends in "
+                   "ZeroDivisionError) and zero tests on such values never fire")
+    ctx.floor("classes with __nonzero__", n, 2)
+
+
+def _sort_uniq(ctx, model):
+    """polynomial._sort_uniq merges terms of equal exponent while walking the
+    sorted list; its invariant is: whenever the remembered exponent equals the
+    current one, the last entry of the result has that exponent.  Every path
+    through the loop body must re-establish it (path rule)."""
+    m, fn = model.func("pymbolic.polynomial:_sort_uniq")
+    loc = m.loc(fn)
+    loops = [lp for lp in ast.walk(fn) if isinstance(lp, ast.For)]
+    if len(loops) != 1:
+        raise AnalysisError("_sort_uniq: merge loop not found")
+    lp = loops[0]
+    # the remembered key: the name compared with the loop's exponent variable
+    if not (isinstance(lp.target, ast.Tuple) and isinstance(lp.target.elts[0],
+                                                            ast.Name)):
+        raise AnalysisError("_sort_uniq: loop target not (exp, coeff)")
+    expv = lp.target.elts[0].id
+    key = None
+    for c in ast.walk(lp):
+        if isinstance(c, ast.Compare) and len(c.ops) == 1 and isinstance(
+                c.ops[0], ast.Eq):
+            names = [x.id for x in (c.left, c.comparators[0])
+                     if isinstance(x, ast.Name)]
+            if expv in names and len(names) == 2:
+                key = [x for x in names if x != expv][0]
+    if key is None:
+        raise AnalysisError("_sort_uniq: remembered exponent not found")
+    from ..cfg import paths
+    n_pop = 0
+    ok = True
+    for path in paths(fn, "1", body=lp.body):
+        popped_at = None
+        reset_after = False
+        for i, it in enumerate(path):
+            if it[0] != "stmt":
+                continue
+            st = it[1]
+            if isinstance(st, ast.Expr) and isinstance(st.value, ast.Call) and \
+                    isinstance(st.value.func, ast.Attribute) and \
+                    st.value.func.attr == "pop":
+                popped_at = i
+            if popped_at is not None and isinstance(st, ast.Assign) and any(
+                    isinstance(t, ast.Name) and t.id == key for t in st.targets):
+                v = st.value
+                # anything that cannot equal the next exponent: None / a sentinel
+                if isinstance(v, ast.Constant) and v.value is None:
+                    reset_after = True
+        if popped_at is not None:
+            n_pop += 1
+            ok = ok and reset_after
+    ctx.ob("P/_sort_uniq/cancelled-term-forgets-exponent", ok and n_pop >= 1, loc,
+           "after a cancelled term is removed its exponent is forgotten" if ok
+           and n_pop else
+           f"when two terms of equal exponent cancel, the entry is popped but "
+           f"'{key}' still holds that exponent: a third term of the same exponent "
+           "is then added onto the *previous* exponent's coefficient "
+           "((x^2 - x + 1)(x^2 + x + 1) comes out as x^4 + 2x^2)")
+
+
+def _exact_unit_division(ctx, model):
+    """Rational.__init__ normalises the sign by dividing numerator and
+    denominator by the denominator's unit; for the integers quotient() passes
+    in, true division turns them into floats, which are inexact beyond 2**53"""
+    rc = model.cls("pymbolic.rational:Rational")
+    init = rc.members.get("__init__")
+    if init is None or init.kind != "func":
+        raise AnalysisError("Rational.__init__ not found")
+    params = {a.arg for a in init.node.args.args[1:]}
+    bad = []
+    for n_ in ast.walk(init.node):
+        if isinstance(n_, ast.AugAssign) and isinstance(n_.op, ast.Div) and \
+                isinstance(n_.target, ast.Name) and n_.target.id in params:
+            bad.append(ast.unparse(n_))
+        if isinstance(n_, ast.BinOp) and isinstance(n_.op, ast.Div) and any(
+                isinstance(x, ast.Name) and x.id in params
+                for x in (n_.left, n_.right)):
+            bad.append(ast.unparse(n_))
+    ctx.ob("P/Rational.__init__/exact-unit-division", not bad, rc.loc(init.node),
+           "numerator and denominator are normalised without true division"
+           if not bad else
+           f"Rational.__init__ applies true division to its arguments ({bad}): "
+           "quotient(7, 3) holds the floats 7.0 and 3.0, and "
+           "quotient(10**20 + 1, 3) evaluates to 3.333...e19 instead of the "
+           "exact quotient")
 
 
 def _fft_wrappers(ctx, model):
